@@ -432,6 +432,9 @@ class Exec:
     def values_eq(self, a, b):
         if isinstance(a.t, TSeq) and isinstance(b.t, TSeq):
             return self.seq_eq(a, b)
+        for (p_, q_) in ((a, b), (b, a)):
+            if isinstance(p_.t, TPy) and p_.t.what == "emptydict" and isinstance(q_.t, TDict):
+                return q_.t.keyseq.len(q_.t.keys(q_.z)) == 0
         if a.t is NONE or b.t is NONE:
             o = b if a.t is NONE else a
             if o.t is NONE:
@@ -768,6 +771,11 @@ class Exec:
                             "key present: " + (src_prefix(node) if node is not None else ""))
             return SV(base.t.v, z3.Select(base.t.vals(base.z), k.z))
         raise Unsupported("subscript %s[%s]" % (base.t, idx.t))
+
+    def ev_Dict(self, st, node):
+        if not node.keys:
+            return SV(TPy("emptydict"), py={})
+        raise Unsupported("dict literal")
 
     def ev_Lambda(self, st, node):
         return SV(FUNC, py=("lambda", node, dict(st.env)))
